@@ -58,6 +58,8 @@ def setCfg (c : MvccCfg) (kv : String) : Option MvccCfg :=
     | "oracle.intentDelGuard" => do let b ← boolOfString? v; pure { c with intentDelGuard := b }
     | "txnit.trackAll" => do let b ← boolOfString? v; pure { c with scanTrackAll := b }
     | "txnit.tracksRange" => do let b ← boolOfString? v; pure { c with scanTracksRange := b }
+    | "oracle.beginWaits" => some c   -- pinned by the extractor; the atomic-step model has no counterpart
+    | "db.failFanout" => some c       -- pinned by the extractor; modelled by the `applyfault` scenario
     | "oracle.seedOp" => do let o ← CmpOp.ofString? v; pure { c with seedOp := o }
     | "oracle.recordsCommit" => do let b ← boolOfString? v; pure { c with recordsCommit := b }
     | "oracle.pruneOp" => do let o ← CmpOp.ofString? v; pure { c with pruneOp := o }
@@ -252,6 +254,49 @@ def dstep (st : DSt) (toks : List String) : DSt × String :=
     match natOf? a, natOf? b, natOf? t with
     | some a, some b, some t => ({ st with m := init a b t, sp := {} }, "ok\t*")
     | _, _, _ => (st, "bad-op")
+  | ["applyfault", tag] =>
+    -- directed scenario: with the worker parked on transaction 94, the queue receives 95, a poisoned
+    -- raw request the LSM refuses, and 96 — one batch.  95 is applied; the request that fails and
+    -- every request behind it in the batch get the error and are not applied, so 96 answers with
+    -- the error and leaves nothing.  (No parking when 94's write was refused or the DB is closed.)
+    match bytesOf? tag with
+    | some tag =>
+      let stallVal := List.replicate (st.m.thr + 8) (tag.headD 115)
+      let (sa, r94) := one (one st (.begin 94 true)).1 (.set 94 [115, 97] (some stallVal))
+      let pre : List Op := [.begin 95 true, .set 95 [97, 49] (some [65]), .begin 96 true, .set 96 [98, 49] (some [66])]
+      let st1 := pre.foldl (fun acc op => (one acc op).1) sa
+      let parkable := r94.1 == "ok" && !st1.m.closed
+      let (st2, o94) := one st1 (.commit 94)
+      let (st3, o95) := one st2 (.commit 95)
+      let (st4, o96) := one st3 (if parkable then .commitIO 96 else .commit 96)
+      let model := ",".intercalate [o94.1, o95.1, o96.1]
+      let okAll := SpecOk o94 && SpecOk o95 && SpecOk o96
+      (st4, model ++ "\t" ++ (if okAll then model else "spec-rejects:" ++ o94.2 ++ "," ++ o95.2 ++ "," ++ o96.2))
+    | none => (st, "bad-op")
+  | ["tornread", tag] =>
+    -- directed scenario: transaction 93 writes p1 and p2 and is committed with the worker parked
+    -- between timestamp and apply; a read-only (91) and an update (92) transaction begun meanwhile
+    -- read p1 at once and p2 after the commit was acknowledged.  NewTransaction waits for the commit,
+    -- so as atomic steps: commit 93, then each reader begins and reads both keys.
+    match bytesOf? tag with
+    | some tag =>
+      let stallVal := List.replicate (st.m.thr + 8) (tag.headD 115)
+      let pre : List Op := [.begin 93 true, .set 93 [112, 49] (some stallVal), .set 93 [112, 50] (some [81])]
+      let st1 := pre.foldl (fun acc op => (one acc op).1) st
+      let (st2, o93) := one st1 (.commit 93)
+      let first1 := fun (r : String × String) => (if r.1.startsWith "val:" then (r.1.take 6).toString else r.1,
+                                                   if r.2.startsWith "val:" then (r.2.take 6).toString else r.2)
+      let (st3, _) := one st2 (.begin 91 false)
+      let (st4, a1) := one st3 (.get 91 [112, 49])
+      let (st5, a2) := one st4 (.get 91 [112, 50])
+      let (st6, _) := one st5 (.begin 92 true)
+      let (st7, b1) := one st6 (.get 92 [112, 49])
+      let (st8, b2) := one st7 (.get 92 [112, 50])
+      let a1 := first1 a1; let a2 := first1 a2; let b1 := first1 b1; let b2 := first1 b2
+      let model := o93.1 ++ ";" ++ a1.1 ++ "," ++ a2.1 ++ ";" ++ b1.1 ++ "," ++ b2.1
+      let spec := o93.2.replace "|" "/" ++ ";" ++ a1.2 ++ "," ++ a2.2 ++ ";" ++ b1.2 ++ "," ++ b2.2
+      (st8, model ++ "\t" ++ (if SpecOk o93 then (o93.1 ++ ";" ++ a1.2 ++ "," ++ a2.2 ++ ";" ++ b1.2 ++ "," ++ b2.2) else "spec-rejects:" ++ spec))
+    | none => (st, "bad-op")
   | ["vlogfault", n2, tag] =>
     -- directed scenario (harness: FaultFS): three fresh transactions 97 (inline value), 98 (100-byte
     -- value), 99 (n2-byte value that needs a new value-log segment whose creation fails); 97 is
